@@ -11,7 +11,7 @@
                          points at something that itself prints as null
      hook_law sd         classification of a struct's (MarshalJSON, UnmarshalJSON) pair *)
 From Coq Require Import List String Bool ZArith NArith Ascii Permutation.
-From MV Require Import Lib.GoJson Lib.GoJsonFacts Gen.CfgTypes Model.ConfigRT Model.EffConfig Proofs.ConfigRT Proofs.ConfigRTFull Proofs.EffConfig Proofs.DurationCoder.
+From MV Require Import Lib.GoJson Lib.GoJsonFacts Gen.CfgTypes Model.ConfigRT Model.EffConfig Proofs.ConfigRT Proofs.ConfigRTFull Proofs.EffConfig Proofs.DurationCoder Proofs.JsonText.
 Import ListNotations.
 Open Scope string_scope.
 
@@ -205,6 +205,27 @@ Example c19_example_full :
   (exists v', decode cfg_structs 64 (TNamed "v2.MOSNConfig") (encode cfg_structs 64 (TNamed "v2.MOSNConfig") w_cfg) = Some v') /\
   json_eqb (encode cfg_structs 64 (TNamed "v2.MOSNConfig") w_cfg) w_doc = false.
 Proof. exact example_full. Qed.
+
+(* THE TEXT OF A STRING.  The dump is the standard JSON encoding of the configuration value, with NO post-processing of the
+   text (src_transfer_returns_marshal: transferConfig returns the output of json.MarshalIndent as it is, read by go/ast).
+   escape models the literal body encoding/json writes for a string (quote, backslash, control characters, the HTML
+   characters < > & as \u00XX, U+2028/9), unescape the string a decoder reads from a literal body; both are compared with
+   encoding/json on every run (EscCase / UnescCase, strings from the hostile pool).  For EVERY string - backslashes,
+   backslash followed by what looks like an escape, already-escaped JSON documents, quotes, control characters - the
+   text written for it is read back as the same string ... *)
+Theorem c19_string_text_roundtrip : forall s, unescape (escape s) = Some s.
+Proof. exact unescape_escape. Qed.
+Print Assumptions c19_string_text_roundtrip.
+Theorem c19_source_transfer_returns_marshal : src_transfer_returns_marshal = true.
+Proof. exact (eq_refl true). Qed.
+(* ... and a textual replacement on the encoded text breaks that: for the value a-backslash-u003cb the replacement of
+   backslash-u003c by < leaves backslash-<, which no decoder accepts (for a plain < it is harmless) *)
+Theorem c19_text_postprocess_refuted :
+  unescape (escape w_pre_escaped) = Some w_pre_escaped /\
+  readable_json (escape w_pre_escaped) = String "a" (String bs "<b") /\
+  unescape (readable_json (escape w_pre_escaped)) = None /\
+  unescape (readable_json (escape "a<b>&c")) = Some "a<b>&c".
+Proof. exact post_replace_refuted. Qed.
 
 (* THE DURATION CODER.  api.DurationConfig and the duration-valued shadow fields are dumped with time.Duration.String and
    loaded with time.ParseDuration.  fmt_duration / parse_duration (Lib/GoJson.v) model the two functions (Go 1.18):
